@@ -18,3 +18,5 @@ for _p in ['C02', 'C03']:
 DEPS['C16'] += ['secrets']
 DEPS['C04'] += ['panics']
 DEPS['C04'] += ['bindings']
+for _p in ['C17', 'C19']:
+    DEPS[_p] += ['fswrite']
